@@ -20,9 +20,12 @@
    TransactionMergeInstall, ConfigParam32..37; their statements are explained there.
 
    Types of Spec/BlockTlb.v whose layout refers to a type outside spec_table (WorkchainDescr,
-   GasLimitsPrices, ConsensusConfig, JettonBridgeParams, WalletMessage) have the tree equality
-   (TlbProofs.impl_<T>_is_spec) but no theorem here: ConfigParam12, ConfigParam20, ConfigParam21, ConfigParam29,
-   ConfigParam79, ConfigParam81, ConfigParam82, HighloadWalletData.
+   WalletMessage) have the tree equality
+   (TlbProofs.impl_<T>_is_spec) but no theorem here: ConfigParam12, HighloadWalletData.
+   ConfigParam20 / 21 / 29: their parent types are not traced (no tree).  ConfigParam79 / 81 / 82 inherit the
+   finding of JettonBridgeParams (TlbProofs.impl_ConfigParam79_differs ...).
+   The wrappers `_ T = ConfigParam N` (8, 11, 13, 14, 22-25, 28, 44, 71-73) parse as T and return an object of class
+   ConfigParamN (Spec/BlockTlb.v: as_class).
    AccountBlock (inline HashmapAug): C16_AccountBlock at the end of the file.
    ShardAccounts (HashmapAugE): tree equality only (TlbProofs.impl_ShardAccounts_is_spec): the library never reads
    the top-level extra of a HashmapAugE (ShardAccounts_extra_unread).
@@ -1572,7 +1575,7 @@ Proof. exact (C16_generic "ConfigParam8" spec_ConfigParam8 27 eq_refl eq_refl). 
 Print Assumptions C16_ConfigParam8.
 
 Definition ex_ConfigParam8 : pv :=
-  PObj "GlobalVersion" [("capabilities"%string, PInt 350686); ("version"%string, PInt 954413)].
+  PObj "ConfigParam8" [("capabilities"%string, PInt 350686); ("version"%string, PInt 954413)].
 Example C16_ConfigParam8_ex :
   wt spec_table spec_ConfigParam8 ex_ConfigParam8 /\
   match encode spec_table spec_ConfigParam8 ex_ConfigParam8 with
@@ -1591,7 +1594,7 @@ Proof. exact (C16_generic "ConfigParam11" spec_ConfigParam11 85 eq_refl eq_refl)
 Print Assumptions C16_ConfigParam11.
 
 Definition ex_ConfigParam11 : pv :=
-  PObj "ConfigVotingSetup" [("critical_params"%string, PObj "ConfigProposalSetup" [("bit_price"%string,
+  PObj "ConfigParam11" [("critical_params"%string, PObj "ConfigProposalSetup" [("bit_price"%string,
     PInt 954413); ("cell_price"%string, PInt 954413); ("max_losses"%string, PInt 255);
     ("max_store_sec"%string, PInt 954413); ("max_tot_rounds"%string, PInt 255); ("min_store_sec"%string,
     PInt 954413); ("min_tot_rounds"%string, PInt 255); ("min_wins"%string, PInt 255)]);
@@ -1617,7 +1620,7 @@ Proof. exact (C16_generic "ConfigParam13" spec_ConfigParam13 28 eq_refl eq_refl)
 Print Assumptions C16_ConfigParam13.
 
 Definition ex_ConfigParam13 : pv :=
-  PObj "ComplaintPricing" [("bit_price"%string, PInt 1000000007); ("cell_price"%string, PInt
+  PObj "ConfigParam13" [("bit_price"%string, PInt 1000000007); ("cell_price"%string, PInt
     1000000007); ("deposit"%string, PInt 1000000007)].
 Example C16_ConfigParam13_ex :
   wt spec_table spec_ConfigParam13 ex_ConfigParam13 /\
@@ -1637,7 +1640,7 @@ Proof. exact (C16_generic "ConfigParam14" spec_ConfigParam14 27 eq_refl eq_refl)
 Print Assumptions C16_ConfigParam14.
 
 Definition ex_ConfigParam14 : pv :=
-  PObj "BlockCreateFees" [("basechain_block_fee"%string, PInt 1000000007);
+  PObj "ConfigParam14" [("basechain_block_fee"%string, PInt 1000000007);
     ("masterchain_block_fee"%string, PInt 1000000007)].
 Example C16_ConfigParam14_ex :
   wt spec_table spec_ConfigParam14 ex_ConfigParam14 /\
@@ -1657,7 +1660,7 @@ Proof. exact (C16_generic "ConfigParam22" spec_ConfigParam22 103 eq_refl eq_refl
 Print Assumptions C16_ConfigParam22.
 
 Definition ex_ConfigParam22 : pv :=
-  PObj "BlockLimits" [("bytes"%string, PObj "ParamLimits" [("hard_limit"%string, PInt 954413);
+  PObj "ConfigParam22" [("bytes"%string, PObj "ParamLimits" [("hard_limit"%string, PInt 954413);
     ("soft_limit"%string, PInt 954413); ("underload"%string, PInt 954413)]); ("gas"%string, PObj
     "ParamLimits" [("hard_limit"%string, PInt 954413); ("soft_limit"%string, PInt 954413);
     ("underload"%string, PInt 954413)]); ("lt_delta"%string, PObj "ParamLimits" [("hard_limit"%string,
@@ -1680,7 +1683,7 @@ Proof. exact (C16_generic "ConfigParam23" spec_ConfigParam23 103 eq_refl eq_refl
 Print Assumptions C16_ConfigParam23.
 
 Definition ex_ConfigParam23 : pv :=
-  PObj "BlockLimits" [("bytes"%string, PObj "ParamLimits" [("hard_limit"%string, PInt 954413);
+  PObj "ConfigParam23" [("bytes"%string, PObj "ParamLimits" [("hard_limit"%string, PInt 954413);
     ("soft_limit"%string, PInt 954413); ("underload"%string, PInt 954413)]); ("gas"%string, PObj
     "ParamLimits" [("hard_limit"%string, PInt 954413); ("soft_limit"%string, PInt 954413);
     ("underload"%string, PInt 954413)]); ("lt_delta"%string, PObj "ParamLimits" [("hard_limit"%string,
@@ -1703,7 +1706,7 @@ Proof. exact (C16_generic "ConfigParam24" spec_ConfigParam24 31 eq_refl eq_refl)
 Print Assumptions C16_ConfigParam24.
 
 Definition ex_ConfigParam24 : pv :=
-  PObj "MsgForwardPrices" [("bit_price"%string, PInt 350686); ("cell_price"%string, PInt 350686);
+  PObj "ConfigParam24" [("bit_price"%string, PInt 350686); ("cell_price"%string, PInt 350686);
     ("first_frac"%string, PInt 65535); ("ihr_price_factor"%string, PInt 954413); ("lump_price"%string,
     PInt 350686); ("next_frac"%string, PInt 65535)].
 Example C16_ConfigParam24_ex :
@@ -1724,7 +1727,7 @@ Proof. exact (C16_generic "ConfigParam25" spec_ConfigParam25 31 eq_refl eq_refl)
 Print Assumptions C16_ConfigParam25.
 
 Definition ex_ConfigParam25 : pv :=
-  PObj "MsgForwardPrices" [("bit_price"%string, PInt 350686); ("cell_price"%string, PInt 350686);
+  PObj "ConfigParam25" [("bit_price"%string, PInt 350686); ("cell_price"%string, PInt 350686);
     ("first_frac"%string, PInt 65535); ("ihr_price_factor"%string, PInt 954413); ("lump_price"%string,
     PInt 350686); ("next_frac"%string, PInt 65535)].
 Example C16_ConfigParam25_ex :
@@ -1745,7 +1748,7 @@ Proof. exact (C16_generic "ConfigParam28" spec_ConfigParam28 38 eq_refl eq_refl)
 Print Assumptions C16_ConfigParam28.
 
 Definition ex_ConfigParam28 : pv :=
-  PObj "CatchainConfig" [("mc_catchain_lifetime"%string, PInt 954413);
+  PObj "ConfigParam28" [("mc_catchain_lifetime"%string, PInt 954413);
     ("shard_catchain_lifetime"%string, PInt 954413); ("shard_validators_lifetime"%string, PInt 954413);
     ("shard_validators_num"%string, PInt 954413); ("shuffle_mc_validators"%string, PBool true);
     ("type_"%string, PStr "catchain_config_new")].
@@ -1787,7 +1790,7 @@ Proof. exact (C16_generic "ConfigParam44" spec_ConfigParam44 29 eq_refl eq_refl)
 Print Assumptions C16_ConfigParam44.
 
 Definition ex_ConfigParam44 : pv :=
-  PObj "SuspendedAddressList" [("addresses"%string, PDict [(3, PNone); (10, PNone); (11, PNone)]);
+  PObj "ConfigParam44" [("addresses"%string, PDict [(3, PNone); (10, PNone); (11, PNone)]);
     ("suspended_until"%string, PInt 954413)].
 Example C16_ConfigParam44_ex :
   wt spec_table spec_ConfigParam44 ex_ConfigParam44 /\
@@ -1807,7 +1810,7 @@ Proof. exact (C16_generic "ConfigParam71" spec_ConfigParam71 16 eq_refl eq_refl)
 Print Assumptions C16_ConfigParam71.
 
 Definition ex_ConfigParam71 : pv :=
-  PObj "OracleBridgeParams" [("bridge_address"%string, PBytes [7%N; 14%N; 21%N; 28%N; 35%N; 42%N; 49%N;
+  PObj "ConfigParam71" [("bridge_address"%string, PBytes [7%N; 14%N; 21%N; 28%N; 35%N; 42%N; 49%N;
     56%N; 63%N; 70%N; 77%N; 84%N; 91%N; 98%N; 105%N; 112%N; 119%N; 126%N; 133%N; 140%N; 147%N; 154%N;
     161%N; 168%N; 175%N; 182%N; 189%N; 196%N; 203%N; 210%N; 217%N; 224%N]);
     ("bridge_address_hex"%string, PHex [7%N; 14%N; 21%N; 28%N; 35%N; 42%N; 49%N; 56%N; 63%N; 70%N; 77%N;
@@ -1840,7 +1843,7 @@ Proof. exact (C16_generic "ConfigParam72" spec_ConfigParam72 16 eq_refl eq_refl)
 Print Assumptions C16_ConfigParam72.
 
 Definition ex_ConfigParam72 : pv :=
-  PObj "OracleBridgeParams" [("bridge_address"%string, PBytes [7%N; 14%N; 21%N; 28%N; 35%N; 42%N; 49%N;
+  PObj "ConfigParam72" [("bridge_address"%string, PBytes [7%N; 14%N; 21%N; 28%N; 35%N; 42%N; 49%N;
     56%N; 63%N; 70%N; 77%N; 84%N; 91%N; 98%N; 105%N; 112%N; 119%N; 126%N; 133%N; 140%N; 147%N; 154%N;
     161%N; 168%N; 175%N; 182%N; 189%N; 196%N; 203%N; 210%N; 217%N; 224%N]);
     ("bridge_address_hex"%string, PHex [7%N; 14%N; 21%N; 28%N; 35%N; 42%N; 49%N; 56%N; 63%N; 70%N; 77%N;
@@ -1873,7 +1876,7 @@ Proof. exact (C16_generic "ConfigParam73" spec_ConfigParam73 16 eq_refl eq_refl)
 Print Assumptions C16_ConfigParam73.
 
 Definition ex_ConfigParam73 : pv :=
-  PObj "OracleBridgeParams" [("bridge_address"%string, PBytes [7%N; 14%N; 21%N; 28%N; 35%N; 42%N; 49%N;
+  PObj "ConfigParam73" [("bridge_address"%string, PBytes [7%N; 14%N; 21%N; 28%N; 35%N; 42%N; 49%N;
     56%N; 63%N; 70%N; 77%N; 84%N; 91%N; 98%N; 105%N; 112%N; 119%N; 126%N; 133%N; 140%N; 147%N; 154%N;
     161%N; 168%N; 175%N; 182%N; 189%N; 196%N; 203%N; 210%N; 217%N; 224%N]);
     ("bridge_address_hex"%string, PHex [7%N; 14%N; 21%N; 28%N; 35%N; 42%N; 49%N; 56%N; 63%N; 70%N; 77%N;
